@@ -187,16 +187,19 @@ def check(run, tier):
         res = pipeline.run_pipeline(facts[cfg])
         per[cfg] = evaluate(run, facts[cfg], cfg, res)
     s = per["std"]
-    run.floor("std.assert_sites", s["assert_sites"], 350)
-    run.floor("std.casts", s["casts"], 80)
-    run.floor("std.instances", s["instances"], 300)
-    run.floor("std.roots", s["roots"], 150)
-    run.floor("std.obligation_sites_reached", s["obligation_sites_reached"], 430)
-    run.floor("std.PRE_sites", s["by_kind"].get("PRE", {"sites": 0})["sites"], 40)
-    run.floor("std.ALLOC_sites", s["by_kind"].get("ALLOC", {"sites": 0})["sites"], 6)
-    run.floor("std.NARROW_sites", s["by_kind"].get("NARROW", {"sites": 0})["sites"], 10)
-    run.floor("std.loops", s["loops"], 20)
-    run.floor("std.fnptr_calls", s["fnptr_calls"], 2)
+    # floors: about two thirds of what was counted by hand on the pinned tree (379 asserts, 47 PRE sites, 6 capacity
+    # requests, 13 narrowing casts, 24 loops, 2 reader calls, 321 invariant values): a clean-up that merges call sites or
+    # replaces loops by iterator chains must not trip them, an analysis that silently sees half the crate must
+    run.floor("std.assert_sites", s["assert_sites"], 250)
+    run.floor("std.casts", s["casts"], 55)
+    run.floor("std.instances", s["instances"], 220)
+    run.floor("std.roots", s["roots"], 110)
+    run.floor("std.obligation_sites_reached", s["obligation_sites_reached"], 300)
+    run.floor("std.PRE_sites", s["by_kind"].get("PRE", {"sites": 0})["sites"], 25)
+    run.floor("std.ALLOC_sites", s["by_kind"].get("ALLOC", {"sites": 0})["sites"], 3)
+    run.floor("std.NARROW_sites", s["by_kind"].get("NARROW", {"sites": 0})["sites"], 7)
+    run.floor("std.loops", s["loops"], 12)
+    run.floor("std.fnptr_calls", s["fnptr_calls"], 1)
     run.floor("std.inv_values_checked", s["inv_values_checked"], 200)
     run.extra["per_config"] = per
     run.extra["functions_analysed"] = s["instances"]
